@@ -101,6 +101,14 @@ def run(plugin, prop, tier, seed, t0):
         # the tables could not even be read: nothing is shown to hold; search still runs below
         notes.append('translator failed: ' + tr['log'][-400:])
         ctx.broken = True
+    # a table that lives inside a function body and can no longer be found (moved / renamed by a refactoring): only the properties whose
+    # theorems or oracles rest on it are affected
+    TABLE_USERS = {'gex_algs': {'C12', 'C17', 'C19'}, 'kex_to_dhgroup_keys': {'C11', 'C17', 'C19'}, 'ranked_return_codes': {'C08'},
+                   'default_kexinit': {'C01', 'C19'}}
+    for tbl in (tr.get('missing') or []) if tr['ok'] else []:
+        if prop in TABLE_USERS.get(tbl, {prop}):
+            notes.append('the table %s could not be regenerated from the source' % tbl)
+            ctx.broken = True
     # 2. build
     b_drv = common.lake_build(['driver'])
     ctx.driver_ok = b_drv['ok']
